@@ -2,6 +2,7 @@ use crate::{
     cfg::RegisterSet,
     parser::{
         CsrIType, CsrType, HasRegisterSets, IArithType, Inst, InstructionProperties, ParserNode,
+        StoreType,
         Register, RegisterProperties,
     },
 };
@@ -50,7 +51,8 @@ impl HasGenValueInfo for ParserNode {
                 _ => None,
             },
             ParserNode::Store(expr) => {
-                if expr.rs1.get().is_stack_pointer() {
+                // Only a full word makes the slot hold the register's value
+                if expr.rs1.get().is_stack_pointer() && *expr.inst.get() == StoreType::Sw {
                     Some((
                         MemoryLocation::StackOffset(expr.imm.get().value()),
                         AvailableValue::RegisterWithScalar(expr.rs2.get_cloned(), 0),
